@@ -20,6 +20,7 @@ TAdd == /\ l <= N /\ bad = ""
            ELSE /\ Add(MsgById(e.id))
                 /\ l' = l + 1 /\ UNCHANGED tid
                 /\ bad' = IF ToSet(e.done) # (Range(yielded') \ Range(yielded)) THEN "completed_tasks"
+                          ELSE IF Traces[tid].light THEN ""        \* scale runs: only what is returned is compared
                           ELSE IF Obs' # e.obs THEN "partial_tree"
                           ELSE IF ~C09_OrderIndependent' THEN "INV.C09_OrderIndependent"
                           ELSE IF ~C09_CompleteIff' THEN "INV.C09_CompleteIff"
